@@ -308,8 +308,41 @@ def r4_reader_walk(ctx, makers, rule="C19.R4"):
                         idx_ok = True
                     elif not from_len:
                         why = "the byte index that is decremented does not start at the length of the byte array"
-    ctx.decide(idx_ok, rule, rule + ":reader:last-byte-first", reader.loc, "bytes[len-1] ... bytes[0]",
-               "lsb_bytes_to_msb_bits: %s - the writers put the low byte first, so the most significant bits are in the last byte" % why)
+    calls = [mir.callee_path(t) or "" for _b, t in body.calls()]
+    rev = any(c.endswith("::rev") for c in calls)
+    iterates = any(c.endswith(("::iter", "IntoIterator>::into_iter", "::into_iter")) for c in calls)
+    # a forward walk positively recognised: an index that starts at 0 and is incremented by one, or an iterator without rev
+    fwd_index = False
+    for blk in body.blocks:
+        if blk.get("c"):
+            continue
+        for s_ in blk["s"]:
+            if s_["k"] == "assign" and s_["r"]["k"] == "bin" and s_["r"]["op"] in ("Add", "AddWithOverflow"):
+                kb = s_["r"]["b"].get("k") if isinstance(s_["r"]["b"], dict) else None
+                pa = mir.op_place(s_["r"]["a"])
+                if kb and kb.get("int") == 1 and pa is not None and not pa[1]:
+                    L = pa[0]
+                    zero_init = any(s2["k"] == "assign" and s2["p"] == [L, []] and s2["r"]["k"] == "use"
+                                    and isinstance(s2["r"]["o"], dict) and (s2["r"]["o"].get("k") or {}).get("int") == 0
+                                    for blk2 in body.blocks for s2 in blk2["s"])
+                    indexes = any(isinstance(e, dict) and "i" in e and (e["i"] == L or (
+                        body.single_def(e["i"]) and body.single_def(e["i"])[1] != "T"
+                        and body.single_def(e["i"])[2]["r"]["k"] == "use"
+                        and mir.op_place(body.single_def(e["i"])[2]["r"]["o"]) == [L, []]))
+                        for blk3 in body.blocks for s3 in blk3["s"] if s3["k"] == "assign" for pl in _places_of(s3) for e in pl[1])
+                    if zero_init and indexes:
+                        fwd_index = True
+    backward = idx_ok or rev
+    forward = fwd_index or (iterates and not rev)
+    key_ = rule + ":reader:last-byte-first"
+    if backward:
+        ctx.ok(rule, key_, reader.loc, "bytes[len-1] ... bytes[0]" if idx_ok else "the bytes are walked through rev()")
+    elif forward:
+        ctx.violation(rule, key_, reader.loc,
+                      "lsb_bytes_to_msb_bits walks the bytes from the first to the last - the writers put the low byte first, so the "
+                      "most significant bits are in the last byte and have to come first in the bit vector")
+    else:
+        ctx.unknown(rule, key_, reader.loc, "the order in which the reader walks the bytes is not recognised (%s)" % why)
     for who, f in [("reader", reader)] + [("writer", prog.fns.get(m) or _by_path(prog, m)) for m in sorted(makers) if m]:
         if f is None:
             ctx.unknown(rule, "%s:%s:mask" % (rule, who), "-", "the bits-to-byte routine is not a workspace function")
